@@ -158,7 +158,20 @@ def grep_gate():
     return bad
 
 
+def coq_project():
+    """_CoqProject lists every .v file under coq/ (generated: nobody edits it by hand)."""
+    files = []
+    for dp, dn, fs in os.walk(COQ):
+        dn.sort()
+        for fn in sorted(fs):
+            if fn.endswith(".v") and not fn.startswith("."):
+                files.append(os.path.relpath(os.path.join(dp, fn), COQ))
+    files.sort()
+    write_if_changed(os.path.join(COQ, "_CoqProject"), "-Q . Verif\n" + "\n".join(files) + "\n")
+
+
 def coq_makefile():
+    coq_project()
     mk = os.path.join(COQ, "Makefile")
     proj = os.path.join(COQ, "_CoqProject")
     if (not os.path.exists(mk)) or os.path.getmtime(mk) < os.path.getmtime(proj):
@@ -215,16 +228,24 @@ PKGS = {
 }
 
 
-def overlay_json(extra_replace=None):
-    """Overlay that ADDS the harness files (tag verif) next to the real sources."""
+def overlay_json(extra_replace=None, only=None, name="overlay"):
+    """Overlay that ADDS the harness files (tag verif) next to the real sources.
+    only: list of property ids; then only zz_verif_<id>_*.go / zz_verif_<id>_test.go and
+    zz_verif_common*.go files are injected (so one property's harness cannot break another's)."""
     repl = {}
     for pkg, rel in PKGS.items():
         d = os.path.join(HARNESS_GO, pkg)
         if not os.path.isdir(d):
             continue
         for fn in sorted(os.listdir(d)):
-            if fn.endswith(".go"):
-                repl[os.path.join(DAEMON, rel, fn)] = os.path.join(d, fn)
+            if not fn.endswith(".go"):
+                continue
+            if only is not None:
+                m = re.match(r"^zz_verif_([a-z0-9]+)[_.]", fn)
+                tag = m.group(1) if m else ""
+                if tag != "common" and tag not in [o.lower() for o in only]:
+                    continue
+            repl[os.path.join(DAEMON, rel, fn)] = os.path.join(d, fn)
     # extra injected packages (e.g. veriftime)
     xd = os.path.join(HARNESS_GO, "_pkgs")
     if os.path.isdir(xd):
@@ -235,17 +256,20 @@ def overlay_json(extra_replace=None):
                     repl[os.path.join(DAEMON, "internal/newrelic", rel)] = os.path.join(dp, fn)
     if extra_replace:
         repl.update(extra_replace)
-    path = os.path.join(BUILD, "overlay.json")
+    path = os.path.join(BUILD, name + ".json")
     write_if_changed(path, json.dumps({"Replace": repl}, indent=1, sort_keys=True))
     return path
 
 
-def go_test_binary(pkg, race=False, extra_replace=None, tagname=None):
+def go_test_binary(pkg, race=False, extra_replace=None, tagname=None, only=None):
     """Build the test binary of one daemon package from /repo's current tree
-    with the harness files overlaid.  Returns (path|None, log)."""
+    with the harness files overlaid.  Returns (path|None, log).
+    only=[ids]: inject only those properties' harness files (plus zz_verif_common*)."""
     os.makedirs(BUILD, exist_ok=True)
+    if only is not None and tagname is None:
+        tagname = "_".join(o.lower() for o in only)
     with Lock("go"):
-        ov = overlay_json(extra_replace)
+        ov = overlay_json(extra_replace, only=only, name="overlay" + ("_" + tagname if tagname else ""))
         out_bin = os.path.join(BUILD, "%s%s%s.test" % (pkg, ".race" if race else "", "." + tagname if tagname else ""))
         cmd = ["go", "test", "-c", "-vet=off", "-tags", "verif", "-overlay", ov, "-o", out_bin]
         if race:
